@@ -141,7 +141,9 @@ func (fv *familyVersion) GetLiveReferenceFiles(store string) map[FamilyID][]tabl
 // cannot remove current version from active versions.
 func (fv *familyVersion) removeVersion(v Version) {
 	fv.mutex.Lock()
-	if v != fv.current {
+	// NOTE: need re-check ref under lock, reference count is decreased without lock, a reader maybe retains the version
+	// again(when it is still current version) before it is replaced by new version.
+	if v != fv.current && v.NumOfRef() == 0 {
 		delete(fv.activeVersions, v.ID())
 	}
 	fv.mutex.Unlock()
